@@ -362,6 +362,15 @@ def build(tier, rnd):
             c['debug'] = dbg
             scs.append(mk(c))
             meta.append((name, 'debug x%d' % dbg, None, cfg, True))
+        # debug messages whose text is not UTF-8, is empty, is long, or whose body is cut short: skipped like any other
+        from harness import wire as _w
+        for bi, body in enumerate((bytes([1]) + _w.string(b'caf\xe9 \xff\xfe d\xe9bogage') + _w.string(b''), bytes([0]) + _w.string(b'') + _w.string(b'en'), bytes([0, 0, 0]),
+                                   b'', bytes([0]) + _w.string(b'x' * 5000) + _w.string(b''), bytes([0]) + _w.u32(4000) + b'short')):
+            c = Cfg(cfg)
+            c['debug'] = 1 + bi % 2
+            c['debug_body'] = body
+            scs.append(mk(c))
+            meta.append((name, 'debug-body#%d' % bi, None, cfg, True))
         if role == 'server' and cfg.get('ssh1') is None:
             # debug messages first, then something that is not a KEXINIT (its body looks like one): skipping debug messages must not
             # waive the check of what follows them
